@@ -13,6 +13,8 @@ Decided:
  W3 common-configuration layout (VirtIO 1.2 4.1.4.3) and per-operation traces of `impl Transport for PciTransport`:
     queue_select first, queue_enable = 1 last, notify at queue_notify_off * multiplier / 2 through a checked get, ISR read,
     generation read, Drop = reset and wait.
+ W7 BAR premise: the kind, address and size that window admission compares against come from BAR probing; the probing
+    tables of C12.B1/B2 are run under this rule id (a BAR reported larger than it is admits windows outside it).
  W4 nothing else is dereferenced: every UniqueMmioPointer::new in the transport constructor is fed by a W1 result.
  W5 typed slice windows never extend past the capability length (C13.G5).  W6 config-space accessors admit an access
     only inside the device-config window (C13.G1 table).
@@ -71,6 +73,11 @@ def run(F, R):
     # offset + size_of::<T>() lies inside the device-config window (table shared with C13.G1)
     from .C13 import g1_bounds
     g1_bounds(F, RuleProxy(R, {'G1': 'W6'}, only=lambda inst: 'Pci' in inst))
+    # W7: "inside an allocated memory BAR" rests on the BAR's kind and size as probed: the probing tables of C12.B1/B2
+    # (not repeated when this module is itself run as a shared analysis of another property)
+    if not isinstance(R, RuleProxy):
+        from .C12 import bar_probe_rules
+        bar_probe_rules(F, RuleProxy(R, {'B1': 'W7', 'B2': 'W7'}))
 
 
 # ------------------------------------------------------------------------------------------------ W3
